@@ -56,7 +56,10 @@ static bool abi_phase(CheckState& st) {
         size_t p = l.rfind(' '); if (p == std::string::npos) continue; std::string sym = l.substr(p + 1); char type = l[p - 1];
         if (sym.compare(0, 17, "embedded_pairing_") != 0 || sym.find("core_arch") != std::string::npos || sym == "embedded_pairing_verif_yield") continue;
         if (type != 'T' && type != 'D' && type != 'R' && type != 'B') continue;
-        nsym++; if (adapter_src.find(sym) == std::string::npos) unc->push(Json::str(sym));
+        nsym++;
+        // the G1/G2 families are generated by one macro in adapter_bls.inc (embedded_pairing_bls12_381_##g##_add ...)
+        std::string pasted = sym; for (const char* gname : {"_g1", "_g2"}) { size_t q = pasted.find(gname); if (q != std::string::npos) { pasted.replace(q, 3, "_##g##"); break; } }
+        if (adapter_src.find(sym) == std::string::npos && adapter_src.find(pasted) == std::string::npos) unc->push(Json::str(sym));
     }
     st.extra->seti("c_api_symbols_exported", (int64_t) nsym); st.extra->set("c_api_symbols_not_exercised_by_the_adapter", unc);
     return true;
